@@ -288,6 +288,9 @@ def features(f):
             for x in walk(e):
                 if x.k == "field" and x[2] == CAND:
                     feats.add("empty-guard:" + x[3])
+        if c.path.startswith("aho_corasick::") and c.path.split("::")[-1].startswith("find"):
+            # which search primitive: overlapping enumeration vs first (earliest-ending) match
+            feats.add("ac:" + c.path.split("::")[-1])
         if c.path.endswith("Match::start"):
             feats.add("anchor:start")
         if c.path.endswith("Match::end"):
